@@ -99,7 +99,7 @@ var props = map[string]*propCfg{
 		Title:    "output ordering is a deterministic function of the aggregated data (order-independence clauses)",
 		Quick:    tierCfg{Runs: 1000, Chunk: 32, RaceRuns: 48, DetRuns: 24, ShrinkSec: 90},
 		Thorough: tierCfg{Runs: 50000, Chunk: 400, RaceRuns: 3000, DetRuns: 128, ShrinkSec: 300},
-		Rule: "one evaluation = one scenario: a multiset of 2-8 (key, count) drawn from pools that stress the comparators (numbers in several spellings, weekday/month names and abbreviations, dates in several layouts, text, mixtures), one of histo/table/bars and one sort mode of {text, numeric, contextual, date, value} x {none, :asc, :desc, :reverse}, run in-process under 4-6 variants that change only the map-iteration salt, the arrival order of lines, schedule and worker count, division among files and read latencies (number of intermediate renders on the fake clock), plus one run with the reversed and one with the equivalent spelling; the row/column label sequences of the final snapshots must agree (or mirror); one scenario in three draws clean key families (distinct integers/decimals, weekday/month names, dates of one layout, distinct totals) with independent modes for rows and columns and compares the displayed order with the documented one; `rare reduce` kinds (2-8 groups, or 1030-1300 groups) order groups by key or by a --sort expression with ties, --sort-reverse must mirror; leg B runs key sets above a thousand free-running under the race detector; " +
+		Rule: "one evaluation = one scenario: a multiset of 2-8 (key, count) drawn from pools that stress the comparators (numbers in several spellings, weekday/month names and abbreviations, dates in several layouts, text, mixtures), one of histo/table/bars and one sort mode of {text, numeric, contextual, date, value} x {none, :asc, :desc, :reverse}, run in-process under 4-6 variants that change only the map-iteration salt, the arrival order of lines, schedule and worker count, division among files and read latencies (number of intermediate renders on the fake clock), plus one run with the reversed and one with the equivalent spelling; the row/column label sequences of the final snapshots must agree (or mirror); one scenario in three draws clean key families (distinct integers/decimals, weekday/month names, dates of one layout, distinct totals) with independent modes for rows and columns and compares the displayed order with the documented one; `rare reduce` kinds (2-8 groups, or 1030-1300 groups) order groups by key or by a --sort expression with ties, --sort-reverse must mirror; for key-based sort modes the screen of every periodic render is rebuilt from the lines the program writes to its terminal (hook in multiterm WriteForLine) and every pair of labels on it must stand in the same relative order as in the final output of that run; leg B runs key sets above a thousand free-running under the race detector; " +
 			"distinct_nontrivial = distinct combined schedule hashes among scenarios with >= 2 goroutines runnable at >= 1 decision",
 		Real:  []string{"main.cliMain + urfave/cli", "cmd/histo|tabulate|bargraph", "cmd/helpers/sorting.go", "pkg/aggregation/sorting", "pkg/aggregation", "pkg/multiterm renderers", "pkg/extractor + batchers"},
 		Stubs: []string{"goroutine scheduling (tape)", "clock (synctest fake clock)", "Go map iteration order in rare's packages (tape-salted permutation)", "stdin (scripted reader)", "read chunking/latency (fs seam)"},
